@@ -52,7 +52,7 @@ static int fd_of(SSL *ssl) { return static_cast<sockpuppet::SocketTlsImpl *>(ssl
 static std::pair<long long, long long> engine(SSL *ssl, int call, char *rbuf, char const *wbuf, size_t size)
 {
   (void)wbuf;
-  vos::log(42, {call, static_cast<long long>(size)});
+  vos::log(42, {call, static_cast<long long>(size), fd_of(ssl)});
   ssl->started = true;
   if(script.empty() || script.front().empty() || script.front()[0] != call) underrun();
   auto ev = script.front();
